@@ -9,7 +9,7 @@ object is a declared sh:NodeShape, every property shape has exactly one path.
 Root causes of the known findings are computed here from the property text:
   rc_custom_shapes_namespace  shapes_namespace is not the default one
   rc_shared_local_name        two class IRIs of the run share their local name
-  rc_parsed_prefix_collision  the rdflib-parsed input declares one of the default shape prefixes
+  rc_parsed_prefix_collision  the rdflib-parsed input declares a prefix already in use (shapes prefix or a user's)
 """
 import glob
 import os
@@ -257,10 +257,11 @@ def check_shacl(text):
 
 def root_cause(check, ts, cfg):
     if check == "prefixes_functional" and "_doc_prefix" in cfg:
-        # the parsed document declares the very prefix the constructor picks for the shapes namespace
-        taken = [x[1] for x in cfg["ns"]]
-        chosen = [p for p in PRIORITY if p not in taken][:1]
-        if chosen and chosen[0] == cfg["_doc_prefix"]:
+        # the parsed document declares a prefix already in use: the one the constructor picks for the shapes
+        # namespace, or one of the user's dictionary (for another namespace)
+        taken = [x[1] for x in cfg["ns"] if x[0] != "http://ex.org/"]
+        chosen = [p for p in PRIORITY if p not in [x[1] for x in cfg["ns"]]][:1]
+        if cfg["_doc_prefix"] in taken + chosen:
             return "rc_parsed_prefix_collision"
     if check in ("refs_resolve", "node") and cfg["shapes_ns"] != DEFAULT_NS:
         return "rc_custom_shapes_namespace"
